@@ -2,6 +2,7 @@
 From CV Require Import Proofs.SchedP5.
 From CV Require Import Model.Base Model.Events Model.Contract Model.Combinators Model.Stats Model.StatsSpec Model.Pipeline
   Proofs.BaseP Proofs.StatsP Proofs.PipelineP Proofs.PipelineP2.
+From CV Require Proofs.StatsP3.
 
 (* the verdict of a Summarize over ANY stream is: a parser error, a final step failure or a final hook
    failure occurred — outside known-finding class K01a (a hook failing in an attempt that is retried) *)
@@ -59,3 +60,27 @@ Proof. exact verdict_tee. Qed.
 Theorem C01_verdict_is_default_rule_on_getters :
   forall p s, qfailed p s = g_has_failed (qgetters p s).
 Proof. exact qfailed_getters. Qed.
+
+(* LIBTEST as the statistics writer (it buffers everything until ParsingFinished): for EVERY event list containing
+   ParsingFinished its verdict is `a parser error, a final step failure or a failed hook occurred` — buffering loses and
+   duplicates nothing (all six getters are the event counts) — and on every contract-abiding stream outside K01a this
+   is the specified verdict; without ParsingFinished nothing is ever counted *)
+Theorem C01_libtest_verdict :
+  forall es, existsb StatsP3.is_parsing_finished es = true ->
+    g_has_failed (lt_getters (StatsP3.lt_final es)) =
+      existsb is_parse_err es || existsb is_step_failed_final es || existsb is_hook_failed es.
+Proof. exact StatsP3.lt_verdict. Qed.
+Print Assumptions C01_libtest_verdict.
+
+Theorem C01_libtest_verdict_on_contract_streams :
+  forall es, contract es = true -> existsb StatsP3.is_parsing_finished es = true ->
+    k_hook_in_retried (before_finished es) = false ->
+    g_has_failed (lt_getters (StatsP3.lt_final es)) = spec_failed es.
+Proof. exact StatsP3.lt_verdict_contract. Qed.
+Print Assumptions C01_libtest_verdict_on_contract_streams.
+
+Theorem C01_libtest_counts_nothing_before_parsing_finished :
+  forall es, existsb StatsP3.is_parsing_finished es = false ->
+    lt_getters (StatsP3.lt_final es) = mk_getters 0 0 0 0 0 0 /\ lt_buf (StatsP3.lt_final es) = es /\
+    g_has_failed (lt_getters (StatsP3.lt_final es)) = false.
+Proof. exact StatsP3.lt_nothing_without_parsing_finished. Qed.
